@@ -95,6 +95,7 @@ def run(ctx):
     impl = h.run(cases)
     model = coqbuild.run_model(mlines)
     ctx.log(f"implementation answered {len(impl)}, model answered {len(model)}")
+    ctx.vm_crosscheck(mlines, model)
     # published coefficients
     basec = {}
     for cid, sl, args in cases:
